@@ -1,7 +1,8 @@
 From Coq Require Import Extraction ExtrOcamlBasic ZArith List.
-From MV Require Import Topo.CheckMeshDefs Topo.PipelineDefs Topo.HalfedgeDefs Topo.EdgeOpsDefs Gen.Pipelines.
+From MV Require Import Topo.CheckMeshDefs Topo.PipelineDefs Topo.HalfedgeDefs Topo.EdgeOpsDefs Topo.UmbrellaDefs Gen.Pipelines.
 Extraction Language OCaml.
 Extraction "../build/ml/c01_model.ml" check_mesh check_counts pipeline_verdicts pipeline_ok
   create_halfedges is_manifold gate_case balanced halfedge_inv
   pair_up collapse_tri tri_of remove_if_folded flip_tris reindex_verts sort_verts sort_faces
-  remove_unreferenced_verts nan_iff_unreferenced starts_in_range tris_of all_live live_edges.
+  remove_unreferenced_verts nan_iff_unreferenced starts_in_range tris_of all_live live_edges
+  check_vertex_manifold check_mesh_v.
